@@ -9,12 +9,10 @@ use std::cmp::Ordering;
 mod h_depth;
 mod h_seq;
 
-pub type T = SplayTree<u8, u8, fn(&u8, &u8) -> Ordering>;
-pub fn cmp_u8(a: &u8, b: &u8) -> Ordering {
-    a.cmp(b)
-}
-pub fn new_tree() -> T {
-    SplayTree::new(cmp_u8 as fn(&u8, &u8) -> Ordering)
+/// comparator as a closure (zero-sized, statically dispatched): with a function pointer CBMC would
+/// have to consider every function of that signature as a possible call target
+pub fn new_tree_generic() -> SplayTree<u8, u8, impl Fn(&u8, &u8) -> Ordering> {
+    SplayTree::new(|a: &u8, b: &u8| a.cmp(b))
 }
 
 /// left chain  n-1 <- ... <- 1 <- 0 (root = n-1), built without any tree operation
@@ -37,7 +35,7 @@ pub fn right_chain(n: u8) -> Option<Box<Node<u8, u8>>> {
     }
     cur
 }
-pub fn install(t: &mut T, root: Option<Box<Node<u8, u8>>>, n: usize) {
+pub fn install<C: Fn(&u8, &u8) -> Ordering>(t: &mut SplayTree<u8, u8, C>, root: Option<Box<Node<u8, u8>>>, n: usize) {
     *t.root_mut() = root;
     t.size = n;
 }
